@@ -353,7 +353,7 @@ def build_cmsg(ch, rng=None):
     elif not bodyless:
         cm['raw'] = body
     f = full(cm)
-    must_close = (not bodyless) and te == 'none' and cl in ('none', 'larger', 'nonnum', 'neg')
+    must_close = (not bodyless) and te == 'none' and cl == 'larger'
     # a coded body delimited by the close of the connection cannot be seen to be cut short: C19's subject
     close_delimited = (not bodyless) and te == 'none' and cl in ('none', 'nonnum', 'neg')
     cm['trunc'] = NOTRUNC
@@ -403,19 +403,23 @@ def _chunks(rng, n, lo, hi):
 
 
 # ------------------------------------------------------------------------------------------ input classes (signatures)
-def msg_class(cm):
-    """The input class of a message, as used in violation signatures (None: an ordinary message)."""
+def msg_class(cm, fix=(False, False, False, False)):
+    """The input class of a message, as used in violation signatures (None: an ordinary message).  fix = the
+    variant of the code under test (FixTE, FixNoBody, Fix1xx, FixBadCL as probed by the driver): a class whose
+    defect is repaired in that variant is an ordinary input there."""
+    fix_te, fix_nb, fix_1xx, fix_cl = fix
     toks = [untok(t) for (p, c, e, t) in cm['lines'] if t is not None and p == 'head']
     bodyless = cm['method'] == 'HEAD' or cm['status'] in (204, 304)
-    if cm['ihead']:
+    if cm['ihead'] and not fix_1xx:
         return {'class': 'interim-1xx'}
-    if bodyless and (cm['hascl'] or cm['te']):
+    if bodyless and (cm['hascl'] or cm['te']) and not fix_nb:
         kind = 'HEAD' if cm['method'] == 'HEAD' else str(cm['status'])
-        return {'class': 'bodyless-with-framing-header', 'kind': kind, 'hdr': 'te' if cm['te'] else 'cl'}
-    for kind, val, style in toks:
-        if kind == KTE and val in (2, 3) and style != 2:
-            return {'class': 'te-spelling', 'te': TE_TEXT[val].decode()}
-    if cm['hascl'] and not cm['clok'] and not cm['te'] and not bodyless:
+        return {'class': 'bodyless-with-framing-header', 'kind': kind}
+    if not fix_te:
+        for kind, val, style in toks:
+            if kind == KTE and val in (2, 3) and style != 2:
+                return {'class': 'te-spelling', 'te': TE_TEXT[val].decode()}
+    if cm['hascl'] and not cm['clok'] and not cm['te'] and not bodyless and not fix_cl:
         return {'class': 'invalid-content-length', 'cl': 'nonnum' if cm['clv'] == CL_NONNUM else 'neg'}
     if cm['hascl'] and cm['clok'] and not cm['te'] and not bodyless and cm['clv'] == 0 and len(cm['raw']) > 0:
         return {'class': 'overrun', 'cl': 0}
